@@ -690,7 +690,7 @@ pub fn strategy() -> BoxedStrategy<Case> {
         4 => ty13().prop_map(|ty| Op::Browse { ty }),
         1 => ty13().prop_map(|ty| Op::BrowseCache { ty }),
         3 => ty13().prop_map(|ty| Op::StopBrowse { ty }),
-        3 => (0usize..3, 0u8..4, proptest::option::weighted(0.5, prop_oneof![Just(1u64), Just(500), Just(2000), Just(20_000), 1u64..100_000])).prop_map(|(host, case_var, timeout_ms)| Op::Resolve { host, case_var, timeout_ms }),
+        3 => (0usize..3, 0u8..4, proptest::option::weighted(0.5, prop_oneof![Just(1u64), Just(500), Just(2000), Just(20_000), Just(1000), Just(3000), Just(7000), 1u64..100_000])).prop_map(|(host, case_var, timeout_ms)| Op::Resolve { host, case_var, timeout_ms }),
         2 => (0usize..3, 0u8..4).prop_map(|(host, case_var)| Op::StopResolve { host, case_var }),
         4 => (ty13(), 0usize..3, prop_oneof![Just(120u32), Just(10), Just(4500), 2u32..200]).prop_map(|(ty, inst, ttl)| Op::Announce { ty, inst, ttl, part: 0 }),
         2 => (ty13(), 0usize..3, prop_oneof![Just(120u32), Just(4500)], 1u8..4).prop_map(|(ty, inst, ttl, part)| Op::Announce { ty, inst, ttl, part }),
